@@ -159,6 +159,9 @@ type GraphDesc struct {
 	PMaps    []int            `json:"p_maps,omitempty"`   // pool of *map[string]int (tag map indices)
 	PPtrs    []int            `json:"p_ptrs,omitempty"`   // pool of **GNode (node indices)
 	TNodes   []TDesc          `json:"t_nodes,omitempty"`
+	// Ring > 0: that many further nodes chained through Next into a ring that
+	// closes on itself (any number of nodes: hundreds, not just a handful)
+	Ring int `json:"ring,omitempty"`
 }
 
 type RootDesc struct {
@@ -351,6 +354,9 @@ func genGraph(t *rapid.T) GraphDesc {
 		}
 		g.Nodes = append(g.Nodes, nd)
 	}
+	if rapid.IntRange(0, 19).Draw(t, "has_ring") == 0 {
+		g.Ring = rapid.SampledFrom([]int{40, 350, 600, 1100}).Draw(t, "ring")
+	}
 	return g
 }
 
@@ -428,6 +434,7 @@ type graphInst struct {
 	tagMaps  []map[string]int
 	ints     []*int
 	tnodes   []*TNode
+	ringHead *GNode
 }
 
 func (gi *graphInst) node(i int) *GNode {
@@ -656,6 +663,20 @@ func instantiate(g GraphDesc) *graphInst {
 			}
 		}
 	}
+	// a long ring of plain nodes
+	if g.Ring > 0 && g.Ring <= 5000 {
+		ring := make([]*GNode, g.Ring)
+		for i := range ring {
+			ring[i] = &GNode{ID: 10000 + i, seq: i}
+		}
+		for i := range ring {
+			ring[i].Next = ring[(i+1)%len(ring)]
+		}
+		if len(gi.nodes) > 0 {
+			ring[len(ring)/2].Pair[0] = gi.nodes[0] // and a link back into the small graph
+		}
+		gi.ringHead = ring[0]
+	}
 	// pass 2: interface payloads
 	for i, nd := range g.Nodes {
 		n := gi.nodes[i]
@@ -717,6 +738,9 @@ func (gi *graphInst) root(r RootDesc) *GRoot {
 		out.Self = []*GRoot{out, out}
 	}
 	out.T = gi.tnode(r.TP1 - 1)
+	if gi.ringHead != nil && r.HasAll {
+		out.All = append(out.All, gi.ringHead)
+	}
 	return out
 }
 
@@ -736,6 +760,9 @@ type topo struct {
 func (tp *topo) pair(in, out reflect.Value, path string, underIface bool, via string) {
 	if tp.err != "" {
 		return
+	}
+	if len(path) > 400 {
+		path = "(...)" + path[len(path)-300:] // long chains: keep the tail of the path
 	}
 	if in.Kind() != out.Kind() {
 		tp.err = fmt.Sprintf("%s: kind %s vs %s", path, in.Kind(), out.Kind())
@@ -1008,7 +1035,13 @@ func runC03(c C03Case) vrt.Verdict {
 	debug.SetMaxStack(48 << 20) // runaway recursion dies in milliseconds, not gigabytes
 	primeSameNamedTypes()
 	cyc, cycIface := hasCycle(c.Graph)
+	if c.Graph.Ring > 0 {
+		cyc = true
+	}
 	labels := []string{"mode=" + c.Mode, fmt.Sprintf("nodes=%d", len(c.Graph.Nodes))}
+	if c.Graph.Ring > 0 {
+		labels = append(labels, fmt.Sprintf("ring>=%d", c.Graph.Ring/300*300))
+	}
 	if cyc {
 		labels = append(labels, "cycle")
 	}
@@ -1185,7 +1218,7 @@ func (l *lazySource) Value(_ context.Context, t *dials.Type) (reflect.Value, err
 func TestC03Graphs(t *testing.T) {
 	vrt.Check(t, vrt.Prop[C03Case]{
 		ID: "C03", Name: "graphs",
-		Rule: "object graphs of 0..8 nodes over the fixed family GNode/GLeaf/GRoot/TNode (TNode implements encoding.TextUnmarshaler and has exported pointer / map / slice fields, so it can point at itself) with arbitrary edges through struct-field pointers (one of them an exported field tagged dials:\"-\", which stacking skips but the copy must still reproduce), slices, arrays, maps, maps whose values are slices / maps shared with other fields, shared maps (also one map object held under a named and an unnamed map type) / *int, unexported fields declared before the exported references, pointers to slices / maps / pointers shared between nodes, back-references to the config root itself, and interface payloads (typed nil map / slice / pointer, *GNode, GNode by value, a struct by value with unexported fields, a time.Time, map[string]*GNode, []*GNode, [1]*GNode, []interface{}, a node's own Attrs map); " +
+		Rule: "object graphs of 0..8 nodes (in one case of twenty plus a ring of 40..1100 further nodes chained through Next) over the fixed family GNode/GLeaf/GRoot/TNode (TNode implements encoding.TextUnmarshaler and has exported pointer / map / slice fields, so it can point at itself) with arbitrary edges through struct-field pointers (one of them an exported field tagged dials:\"-\", which stacking skips but the copy must still reproduce), slices, arrays, maps, maps whose values are slices / maps shared with other fields, shared maps (also one map object held under a named and an unnamed map type) / *int, unexported fields declared before the exported references, pointers to slices / maps / pointers shared between nodes, back-references to the config root itself, and interface payloads (typed nil map / slice / pointer, *GNode, GNode by value, a struct by value with unexported fields, a time.Time, map[string]*GNode, []*GNode, [1]*GNode, []interface{}, a node's own Attrs map); " +
 			"copied directly by the deep copier (root *GNode or *GRoot), by Config with the graph in defaults and in one or two source values (both may set the same interface-typed field, with payloads of the same or different types), and by a watcher re-stack; oracle: terminates, reflect.DeepEqual, and the in->out map of pointer/map references in fields, elements and map values is a function with a fresh range; " +
 			"non-trivial = the graph has a cycle or a reference with in-degree >= 2; distinct = distinct case JSON",
 		Assumptions: []string{
